@@ -77,6 +77,37 @@ def number_to_str(x) -> str:
     return tok
 
 
+def number_to_str_spec(x, spec: str) -> str:
+    """format(x, spec) of an array element written into a text header. A format with limited precision ('g', '.3f', 'e', ...)
+    reproduces a number only if it has that few digits: exact for constants that survive the round trip, otherwise the written text
+    denotes a *different* (rounded) number."""
+    if isinstance(x, STensor):
+        x = x.item()
+    x = symt.simplify(x)
+    if isinstance(x, (int, Fraction)) or to_rat(x).is_const():
+        v = x if isinstance(x, (int, Fraction)) else to_rat(x).const_value()
+        try:
+            txt = format(v if isinstance(v, int) and not any(c in spec for c in "eEfFgG%") else float(v), spec)
+            if Fraction(txt) == Fraction(v):
+                return txt
+        except (ValueError, TypeError, ZeroDivisionError):
+            pass
+    r = to_rat(x)
+    key = f"<rounded:{spec}:{len(TOKENS)}>"
+    for k, v in TOKENS.items():
+        if k.startswith(f"<rounded:{spec}:") and getattr(v, "_src", None) is not None and v._src.equals(r):
+            return k
+    lossy = Rat.atom(f"rounded[{spec}]({r})")
+    try:
+        lossy._src = r
+    except AttributeError:
+        pass
+    if symt.FACTS.sign(r) == 1:
+        symt.FACTS.declare_positive(lossy)  # rounding keeps the sign of a generic positive number
+    TOKENS[key] = lossy
+    return key
+
+
 def str_to_number(tok: str, integer: bool = False):
     if tok in TOKENS:
         return TOKENS[tok]
@@ -918,6 +949,7 @@ def enable() -> None:
     """Switch the interpreter into the I/O-model mode (text headers print numbers, file objects are host models)."""
     install()
     tae.STR_HOOK = number_to_str
+    tae.FORMAT_HOOK = number_to_str_spec
     tae.EXTERNAL_ISINSTANCE["BufferedReader"] = lambda v: isinstance(v, HBytesIO)
     tae.EXTERNAL_ISINSTANCE["BytesIO"] = lambda v: isinstance(v, HBytesIO)
     VFS.clear()
